@@ -13,15 +13,15 @@ use std::path::Path;
 
 pub const PROP: Prop = Prop { id: "C08", spec, run, replay };
 
-const FORMS: [&str; 6] = ["alone", "after-name", "then-quit", "quit-or-action", "two-actions", "under-not"];
+const FORMS: [&str; 8] = ["alone", "after-name", "then-quit", "quit-or-action", "two-actions", "under-not", "alone-mindepth1", "alone-mindepth2"];
 const ROOTS: [&str; 4] = ["r", "./r", ".", "ABS"];
 
 fn spec(t: Tier) -> Spec {
     Spec {
         id: "C08",
         level: "fault_enumeration",
-        rule: format!("(i) every ordered forest of files and directories with <= {} nodes as r/ x expression forms {:?} x -exec/-execdir x starting points r, ./r, ., absolute (and / with -maxdepth 0): the recorder child logs argv and cwd of every invocation; the concatenation of the appended paths over all invocations must be the reference visit order of the entries on which the action is reached, each exactly once, after the fixed arguments; with -execdir each invocation holds entries of one directory only, each as ./basename, with that directory as cwd; a following labelled -printf fires for every reached entry (action true); every pending batch has run at exit, also after -quit; exit 0. (ii) forced batching through the find binary: directories of {} files with 1-, 100- and 250-byte names under RLIMIT_STACK 256 KiB / 8 MiB / unlimited (several invocations): no invocation is refused by the kernel, the paths arrive once each in order (verified by count + rolling hash per invocation, and with full argv+cwd for the -execdir case), >= 2 invocations observed. (iii) faults: every subset of the invocations (up to {} -execdir invocations, one per directory visit) exiting 1, and a command that cannot be started: all invocations still run, exit status != 0 iff some invocation failed. evaluation = one invocation (i, ii) or one fault placement (iii) checked; non-trivial = run with more than one invocation or a fault", t.pick(3, 4), FORMS, t.pick("400 and 3000", "400, 3000 and 40000"), t.pick(5, 7)),
-        bound: json!({"max_nodes": t.pick(3, 4), "forms": FORMS, "roots": ["r","./r",".","absolute","/ -maxdepth 0"], "stack_limits": ["256KiB","8MiB","unlimited"]}),
+        rule: format!("(i) every ordered forest of files and directories with <= {} nodes as r/ x expression forms {:?} x -exec/-execdir x starting points r, ./r, ., absolute (and / with -maxdepth 0): the recorder child logs argv and cwd of every invocation; the concatenation of the appended paths over all invocations must be the reference visit order of the entries on which the action is reached, each exactly once, after the fixed arguments; with -execdir each invocation holds entries of one directory only, each as ./basename, with that directory as cwd; a following labelled -printf fires for every reached entry (action true); every pending batch has run at exit, also after -quit; exit 0. (ii) forced batching through the find binary: directories of {} files with 1-, 100- and 250-byte names under RLIMIT_STACK 256 KiB / 8 MiB / unlimited (several invocations): no invocation is refused by the kernel, the paths arrive once each in order (verified by count + rolling hash per invocation, and with full argv+cwd for the -execdir case), >= 2 invocations observed. (iii) faults: every subset of the invocations (up to {} -execdir invocations, one per directory visit) exiting 1, and a command that cannot be started: all invocations still run, exit status != 0 iff some invocation failed. evaluation = one invocation (i, ii) or one fault placement (iii) checked; non-trivial = run with more than one invocation or a fault", t.pick(4, 5), FORMS, t.pick("400 and 3000", "400, 3000 and 40000"), t.pick(5, 7)),
+        bound: json!({"max_nodes": t.pick(4, 5), "forms": FORMS, "roots": ["r","./r",".","absolute","/ -maxdepth 0"], "stack_limits": ["256KiB","8MiB","unlimited"]}),
         assumptions: vec!["-sorted pins the visit order; tmpfs; the recorder is a real child process".into(), "for the starting point / only 'ran exactly once with one path, exit 0' is judged".into()],
         shards: 0,
         wall_cap_s: t.pick(300, 3600),
@@ -49,7 +49,12 @@ struct Reached {
 
 /// reference: entries on which the action is reached, in order
 fn reached(fs: &Fs, root: &str, form: &str, w: &str) -> Vec<Reached> {
-    let cfg = WalkCfg { follow: Follow::P, mindepth: 0, maxdepth: usize::MAX, depth_first: false };
+    let mindepth = match form {
+        "alone-mindepth1" => 1,
+        "alone-mindepth2" => 2,
+        _ => 0,
+    };
+    let cfg = WalkCfg { follow: Follow::P, mindepth, maxdepth: usize::MAX, depth_first: false };
     let mut notes = WalkNotes::default();
     let real_root = if root == "ABS" { format!("{w}/r") } else { root.to_string() };
     // abstract fs: cwd is node 0 (= w); an absolute root is walked as "r" and re-prefixed
@@ -179,7 +184,10 @@ fn small_case(ctx: &mut Ctx, forest: &[Shape], root: &str, form: &str, execdir: 
     let mut argv: Vec<String> = vec![real_root.clone(), "-sorted".into()];
     let fixed1: Vec<&str> = vec!["FIX", "-x"];
     match form {
-        "alone" => {
+        "alone" | "alone-mindepth1" | "alone-mindepth2" => {
+            if form != "alone" {
+                argv.extend(["-mindepth".to_string(), form[form.len() - 1..].to_string()]);
+            }
             argv.extend(act(&l1, &fixed1));
             argv.extend(["-printf".to_string(), "T %p\\n".to_string()]);
         }
@@ -317,6 +325,61 @@ fn fault_case(ctx: &mut Ctx, execdir: bool, ninv: usize, failing: u32, missing: 
         return Some((format!("C08 action not true for every reached entry [{tag}]"), detail(format!("{} T lines, {want_out} entries", lossy(&got.out).lines().count()))));
     }
     ctx.rep.class(&format!("{tag} invocations={} failing={}", recs.len(), (failing as u64).count_ones().min(2)));
+    None
+}
+
+/// `-exec A {} + -exec B {} +` (or joined by ',') where A and B are "ok" (recorder, exit 0), "bad"
+/// (/bin/false) or "nostart" (missing command): exit status != 0 iff one of them is not ok, and the
+/// ok one still receives every path.
+fn two_action_case(ctx: &mut Ctx, execdir: bool, first: &str, second: &str, comma: bool) -> Option<(String, String)> {
+    let w = ctx.sbx.join("w");
+    let _ = crate::sandbox::force_remove(&w);
+    std::fs::create_dir_all(w.join("r/d")).ok()?;
+    std::fs::write(w.join("r/d/f"), b"").ok()?;
+    std::fs::write(w.join("r/g"), b"").ok()?;
+    let prim = if execdir { "-execdir" } else { "-exec" };
+    let mut argv: Vec<String> = vec!["r".into(), "-sorted".into()];
+    let mut logs = vec![];
+    for (k, kind) in [first, second].iter().enumerate() {
+        if k == 1 && comma {
+            argv.push(",".into());
+        }
+        argv.push(prim.into());
+        match *kind {
+            "ok" => {
+                let log = ctx.sbx.join(format!(".mc-vrec{k}.log"));
+                let _ = std::fs::remove_file(&log);
+                argv.push(vrec());
+                argv.push(log.to_string_lossy().to_string());
+                logs.push(log);
+            }
+            "bad" => argv.push("/bin/false".into()),
+            _ => argv.push(ctx.sbx.join("no-such-command").to_string_lossy().to_string()),
+        }
+        argv.extend(["{}".to_string(), "+".to_string()]);
+    }
+    let got = run_bin(ctx, &argv, &w, None, vec![]);
+    ctx.rep.evaluations += 1;
+    ctx.rep.nontrivial += 1;
+    let tag = format!("{prim} two actions {first}/{second}{}", if comma { " joined by ," } else { "" });
+    let detail = format!("find {:?}\nstatus {:?} stderr {:?}", argv, got.code, lossy(&got.err));
+    if got.panicked() {
+        return Some((format!("C08 panic / crash [{tag}]"), detail));
+    }
+    for log in &logs {
+        let recs = vreclog::read(log).unwrap_or_default();
+        let passed: usize = recs.iter().map(|r| r.args.len()).sum();
+        if passed != 4 {
+            return Some((format!("C08 a failing action kept another action's paths from being delivered [{tag}]"), format!("{detail}\n{passed} of 4 paths reached the recorder")));
+        }
+    }
+    let any_bad = first != "ok" || second != "ok";
+    if any_bad && got.code == Ok(0) {
+        return Some((format!("C08 exit status 0 although an invocation failed or could not start [{prim} two actions, {}]", if second != "ok" { "the later one" } else { "the earlier one" }), detail));
+    }
+    if !any_bad && got.code != Ok(0) {
+        return Some((format!("C08 non-zero exit status although every invocation succeeded [{tag}]"), detail));
+    }
     None
 }
 
@@ -463,7 +526,7 @@ fn run(ctx: &mut Ctx) {
     let mut job = 0u64;
     // (i)
     let labels = [Leaf::File, Leaf::EmptyDir];
-    for n in 0..=ctx.tier.pick(3, 4) {
+    for n in 0..=ctx.tier.pick(4, 5) {
         let mut todo: Vec<Vec<Shape>> = vec![];
         tree::forests(n, &labels, &mut |f| todo.push(f.to_vec()));
         for forest in todo {
@@ -520,6 +583,20 @@ fn run(ctx: &mut Ctx) {
             ctx.progress(job);
             if let Some((sig, detail)) = fault_case(ctx, true, d + 2, mask, false) {
                 ctx.rep.violation(&sig, detail, json!({"prop":"C08","part":"fault","execdir":true,"ninv":d + 2,"mask":mask,"missing":false}));
+            }
+        }
+    }
+    // two {} + actions in one expression whose outcomes differ (one command fails or cannot start)
+    for execdir in [false, true] {
+        for (first, second) in [("bad", "ok"), ("ok", "bad"), ("nostart", "ok"), ("ok", "nostart"), ("ok", "ok"), ("bad", "bad")] {
+            for comma in [false, true] {
+                job += 1;
+                if !ctx.mine(job) {
+                    continue;
+                }
+                if let Some((sig, detail)) = two_action_case(ctx, execdir, first, second, comma) {
+                    ctx.rep.violation(&sig, detail, json!({"prop":"C08","part":"two","execdir":execdir,"first":first,"second":second,"comma":comma}));
+                }
             }
         }
     }
@@ -584,6 +661,7 @@ fn replay(case: &Value, ctx: &mut Ctx) -> Option<String> {
             small_case(ctx, &forest, root, form, case["execdir"].as_bool()?)
         }
         "fault" => fault_case(ctx, case["execdir"].as_bool()?, case["ninv"].as_u64()? as usize, case["mask"].as_u64()? as u32, case["missing"].as_bool()?),
+        "two" => two_action_case(ctx, case["execdir"].as_bool()?, ["ok", "bad", "nostart"].into_iter().find(|x| Some(*x) == case["first"].as_str())?, ["ok", "bad", "nostart"].into_iter().find(|x| Some(*x) == case["second"].as_str())?, case["comma"].as_bool()?),
         "batch" => batch_case(ctx, case["execdir"].as_bool()?, case["nfiles"].as_u64()? as usize, case["namelen"].as_u64()? as usize, case["ndirs"].as_u64()? as usize, case["stack"].as_u64(), case["mask"].as_u64()? as u32),
         _ => return None,
     };
